@@ -10,6 +10,7 @@ import (
 	"net"
 	"net/http"
 	"net/http/httptest"
+	"runtime"
 	"strings"
 	"sync"
 	"time"
@@ -171,18 +172,75 @@ func (s *netServers) tcp(ms []*dns.Msg) ([]netObs, error) {
 		}
 		o, err := parseReply(b)
 		if err != nil {
-			return nil, err
+			continue // not a DNS message: nobody's reply
 		}
-		placed := false
 		for i, m := range ms {
 			if out[i].reply == nil && m.Id == o.reply.Id {
-				out[i], placed = o, true
+				out[i] = o
 				got++
 				break
 			}
 		}
-		if !placed {
-			return nil, errors.New("TCP reply matches no outstanding query")
+	}
+	return out, nil
+}
+
+// tcpRound: the queries are written back to back on one connection; the
+// barrier at the end of the chain holds every one of them until all have
+// arrived and then lets them go together, so that their replies are written
+// at the same moment. When all handler goroutines have ended everything the
+// server had to say is in the socket: what is read then, frame by frame, is
+// matched to the queries by id.
+func (s *netServers) tcpRound(ms []*dns.Msg, meet *Rendezvous, base int) ([]netObs, error) {
+	out := make([]netObs, len(ms))
+	if !waitGoroutines(base, waitReply) {
+		return nil, errors.New("servers are not idle before a pipelined round")
+	}
+	meet.Reset(len(ms))
+	defer meet.Reset(1)
+	c, err := net.Dial("tcp", s.tcpAddr)
+	if err != nil {
+		return nil, err
+	}
+	defer c.Close()
+	var all []byte
+	for _, m := range ms {
+		b, err := m.Pack()
+		if err != nil {
+			return nil, err
+		}
+		all = append(all, frame(b)...)
+	}
+	if _, err := c.Write(all); err != nil {
+		return out, nil
+	}
+	for i := 0; i < len(ms); i++ {
+		select {
+		case <-meet.Arrived:
+		case <-time.After(waitReply):
+			return nil, errors.New("pipelined queries do not all reach the barrier")
+		}
+	}
+	// base + the connection's read loop: the handler goroutines have written and ended
+	if !waitGoroutines(base+1, waitReply) {
+		return nil, errors.New("handlers of a pipelined round do not end")
+	}
+	c.SetReadDeadline(time.Now().Add(waitNone))
+	for got := 0; got < len(ms); {
+		b, err := readFrame(c)
+		if err != nil {
+			return out, nil // nothing more (or the stream is out of step): the rest got no reply
+		}
+		o, err := parseReply(b)
+		if err != nil {
+			continue
+		}
+		for i, m := range ms {
+			if out[i].reply == nil && m.Id == o.reply.Id {
+				out[i] = o
+				got++
+				break
+			}
 		}
 	}
 	return out, nil
@@ -228,6 +286,7 @@ type NetCase struct {
 	Scripts [][]Template
 	Prog    []TSeq
 	Queries []NetQuery
+	Rounds  [][]*dns.Msg // each: queries pipelined on one TCP connection and released together by the barrier
 }
 
 // Run starts the servers, sends every query over its transport (pipelined
@@ -247,6 +306,7 @@ func (c *NetCase) Run(render func() *hx.RNG) (string, map[string]int, error) {
 		return "", nil, err
 	}
 	defer srv.close()
+	base := runtime.NumGoroutine() // the idle servers
 	obs := make([]netObs, len(c.Queries))
 	errs := make([]error, len(c.Queries))
 	var wg sync.WaitGroup
@@ -308,6 +368,25 @@ func (c *NetCase) Run(render func() *hx.RNG) (string, map[string]int, error) {
 		}
 		it[i] = fmt.Sprintf("(NObs %d %s %s %d)", q.Tr, MsgCoq(q.Msg), reply, obs[i].rlen)
 	}
+	for _, ms := range c.Rounds {
+		if b.Meet == nil {
+			return "", nil, errors.New("pipelined rounds without a barrier in the program")
+		}
+		o, err := srv.tcpRound(ms, b.Meet, base)
+		if err != nil {
+			return "", nil, err
+		}
+		for k, m := range ms {
+			reply := "None"
+			if o[k].reply != nil {
+				reply = hx.Some(MsgCoq(o[k].reply))
+				tally["net-round-replied"]++
+			} else {
+				tally["net-round-noreply"]++
+			}
+			it = append(it, fmt.Sprintf("(NObs %d %s %s %d)", TrTCPPipelined, MsgCoq(m), reply, o[k].rlen))
+		}
+	}
 	xs := make([]string, len(c.Xs))
 	for i, d := range c.Xs {
 		xs[i] = d.Coq()
@@ -352,8 +431,9 @@ func GenNetCase(r *hx.RNG, boundary bool) *NetCase {
 		Xs: []XDesc{
 			{Kind: "hosts", Hosts: []HostEntry{{Pattern: "a.test", V4: []uint32{0x0A000101}, V6: []uint16{0x101}}}},
 			{Kind: "forward", Up: 0},
+			{Kind: "barrier"},
 		},
-		Prog: []TSeq{{Name: 0, Rules: []TRule{{Kind: "exec", Arg: 0}, {Ms: []TMatch{{Neg: true, ID: 0}}, Kind: "exec", Arg: 1}}}},
+		Prog: []TSeq{{Name: 0, Rules: []TRule{{Kind: "exec", Arg: 0}, {Ms: []TMatch{{Neg: true, ID: 0}}, Kind: "exec", Arg: 1}, {Kind: "exec", Arg: 2}}}},
 	}
 	small := Template{Flags: 1 << 7, Answer: []dns.RR{plainA("", 300, 0x0A000001)}, Opt: newOPT(1232, false, 0, nil)}
 	var big []dns.RR
@@ -434,6 +514,29 @@ func GenNetCase(r *hx.RNG, boundary bool) *NetCase {
 		if s > 0 && s < 65536 {
 			add([]int{TrUDP}, "c.test.", 16, newOPT(uint16(s), false, 0, nil), 1, nil)
 		}
+	}
+	return c
+}
+
+// GenPipeCase: rounds of k queries pipelined on one TCP connection whose
+// replies (of different lengths: hosts answers, one record, a few TXT records)
+// are released at the same moment.
+func GenPipeCase(r *hx.RNG, k, rounds int) *NetCase {
+	c := GenNetCase(r, false)
+	c.Queries = nil
+	names := []string{"a.test.", "b.test.", "c.test.", "A.Test.", ".", "d.example.", LongName(r.Range(20, 120), uint64(r.Intn(4)))}
+	id := uint16(r.Intn(30000))
+	for j := 0; j < rounds; j++ {
+		var ms []*dns.Msg
+		for i := 0; i < k; i++ {
+			id += 1 + uint16(r.Intn(3))
+			var o *dns.OPT
+			if r.Bool() {
+				o = newOPT(hx.Pick(r, udpSizes), r.Bool(), 0, nil)
+			}
+			ms = append(ms, netQuery(id, hx.Pick(r, names), hx.Pick(r, []uint16{1, 28, 16, 2}), o, nil))
+		}
+		c.Rounds = append(c.Rounds, ms)
 	}
 	return c
 }
